@@ -241,6 +241,29 @@ pub fn run(ctx: &Ctx) -> Outcome {
     if out.failure.is_some() {
         return out;
     }
+    // extreme date-times x a spread of offsets (incl. the last representable day at 23:59:60)
+    let rs = par_shards(1, |_, st| {
+        let mut fs = vec![];
+        for y in [i32::MAX, i32::MAX - 1, i32::MIN, i32::MIN + 1, 0, -1, 9999, 10000, -9999] {
+            for (mo, d) in [(12u8, 31u8), (1, 1), (2, 28)] {
+                for (h, mi, s) in [(23u8, 59u8, 60u8), (23, 59, 59), (0, 0, 0)] {
+                    fs.push(gens::Fields { y, mo, d, h, mi, s, ns: 999_999_999 });
+                }
+            }
+        }
+        for f in fs {
+            for off in [None, Some(0), Some(1), Some(-1), Some(59), Some(-59), Some(3600), Some(-3600), Some(86_399), Some(-86_399), Some(i32::MAX), Some(i32::MIN + 1)] {
+                for via in [false, true] {
+                    check_enum("fmt", &FmtCase { f, off, via_timespec: via }, st, check_fmt)?;
+                }
+            }
+        }
+        Ok(())
+    });
+    out.absorb_all(rs);
+    if out.failure.is_some() {
+        return out;
+    }
     let cases = ctx.tier.pick(60_000u32, 5_000_000u32);
     let strat = (gens::arb_valid_fields(), prop_oneof![1 => Just(None), 5 => arb_offset().prop_map(Some)], any::<bool>()).prop_map(|(f, off, via_timespec)| FmtCase { f, off, via_timespec });
     let rs = par_shards(16, |shard, st| pt_shard(ctx, "fmt", shard, cases, &strat, st, check_fmt));
